@@ -246,10 +246,32 @@ def run_case(case, seed):
                     trans += O + 2
                     if bad:
                         V("exact-adjoint", name, "adjoint is not C-linear in its array argument on probe %s (err %.3g): imaginary part dropped or conjugated" % bad[0])
+    else:
+        # no operator exists for this combination, so nothing can be its adjoint: the adjoint functions must refuse too
+        # (probed with the output shape |m-n|+1 per axis that a per-axis valid rule would give, subsampled by the strides)
+        pn = [-(-(abs(a - b) + 1) // st_) for a, b, st_ in zip(m, n, s)]
+        on = batch + ([co] if mc else []) + pn
+        yy = (dense.dense_vec(dense.prod(on), 3) * (1 - 0.25j)).reshape(on)
+        for name, fn in (("conv.convolve_data_adjoint", lambda: sp.convolve_data_adjoint(yy, ff, dshape, **kw)),
+                         ("conv.convolve_filter_adjoint", lambda: sp.convolve_filter_adjoint(yy, dd, fshape, **kw))):
+            try:
+                r_ = fn()
+                trans += 1
+            except Exception:
+                continue
+            V("accepted-not-admitted", name, "valid mode with mixed larger/smaller axes: the forward convolution does not exist, "
+              "but the adjoint returned an array of shape %s" % (list(np.asarray(r_).shape),))
     # ---- Linops must refuse what the functions refuse, and agree otherwise
     for lname, arg_shape, cap in (("ConvolveData", dshape, ff), ("ConvolveFilter", fshape, dd)):
         try:
             A = getattr(sp.linop, lname)(arg_shape, cap, **kw)
+        except Exception:
+            continue
+        if not admitted:
+            V("accepted-not-admitted", "linop." + lname, "operator %s->%s was built for a shape combination the mode does not admit" % (
+                list(A.ishape), list(A.oshape)))
+            continue
+        try:
             x = dd if lname == "ConvolveData" else ff
             y = A(x.astype(np.complex128))
             trans += 1
